@@ -129,6 +129,9 @@ UnderCall(src, want, sc) ==
       cand    == IF failing THEN {<<k, "ERR">> : k \in 0..m}
                  ELSE IF avail = 0 THEN {<<0, "EOF">>}
                  ELSE {<<k, "nil">> : k \in 1..m} \cup (IF m = avail THEN {<<m, "EOF">>} ELSE {})
+      legal(k, e) == IF failing THEN e = "ERR" /\ k \in 0..m                       \* membership in cand, without building it
+                     ELSE IF avail = 0 THEN k = 0 /\ e = "EOF"
+                     ELSE (e = "nil" /\ k \in 1..m) \/ (e = "EOF" /\ k = m /\ m = avail)
       pick    == CASE sc.mode = "free"   -> cand
                    [] sc.mode \in {"greedy", "one", "half", "eager"} ->
                         IF failing THEN {<<0, "ERR">>} ELSE IF avail = 0 THEN {<<0, "EOF">>}
@@ -136,7 +139,7 @@ UnderCall(src, want, sc) ==
                                 [] sc.mode = "one"    -> {<<1, "nil">>}
                                 [] sc.mode = "half"   -> {<<(m + 1) \div 2, "nil">>}
                                 [] sc.mode = "eager"  -> {<<m, IF m = avail THEN "EOF" ELSE "nil">>})
-                   [] sc.mode = "follow" -> IF sc.s = <<>> THEN {} ELSE {c \in cand : c[1] = sc.s[1].n /\ c[2] = sc.s[1].err}
+                   [] sc.mode = "follow" -> IF sc.s # <<>> /\ legal(sc.s[1].n, sc.s[1].err) THEN {<<sc.s[1].n, sc.s[1].err>>} ELSE {}
       c1      == IF src.failFrom = 0 THEN 0 ELSE RMin(src.calls + 1, src.failFrom)
   IN {[data |-> RTake(src.rest, c[1]), err |-> c[2],
        src  |-> [src EXCEPT !.rest = RDrop(@, c[1]), !.calls = c1],
